@@ -466,6 +466,9 @@ pub fn parent_main(check: &Check, tier: Tier) -> i32 {
         }));
     }
 
+    if merged.samples.is_empty() && merged.violations.is_empty() {
+        merged.inconclusive.push("no sample case was recorded by any worker".into());
+    }
     let fin = (check.finalize)(tier, &mut merged);
     let distinct = merged.distinct_nontrivial();
     // floors
